@@ -41,40 +41,58 @@ def _sites_of_interest(w, spec):
         elif isinstance(f, ast.Name) and f.id in getattr(w, "localfns", {}):
             label = "fn:" + f.id          # renamed to fn#k (rename-invariant) by _one
             names = [f"p{i}" for i, _ in enumerate(w.localfns[f.id].args.args)]
-            for kname in list(n._kws):      # keyword arguments of a nested function: map to positions
-                pn = [a.arg for a in w.localfns[f.id].args.args]
-                if kname in pn:
-                    n._kws[f"p{pn.index(kname)}"] = n._kws.pop(kname)
+            pn = [a.arg for a in w.localfns[f.id].args.args]
+            n._kwmap = {kname: f"p{pn.index(kname)}" for kname in pn}
         elif isinstance(f, ast.Attribute) and isinstance(f.value, ast.Name) and f.value.id == w.selfname and f.attr in BUILDERS:
             label = "call:" + f.attr
             cm = S.module("c_parser").methods("CParser").get(f.attr)
-            names = [a.arg for a in cm.args.args[1:]] if cm is not None else None
+            names = _positional(n, [a.arg for a in cm.args.args[1:]]) if cm is not None else None
         elif isinstance(f, ast.Attribute) and isinstance(f.value, ast.Name) and f.value.id == w.selfname and f.attr.startswith(("_parse_", "_try_parse_")) and (n.args or n.keywords) \
                 and f.attr not in ("_parse_error",):
             # data handed to another production through its parameters (the callee builds nodes from it)
             cm = S.module("c_parser").methods("CParser").get(f.attr)
             if cm is not None and any(not isinstance(a, ast.Constant) for a in list(n.args) + [k.value for k in n.keywords]):
                 label = "call:" + f.attr
-                names = [a.arg for a in cm.args.args[1:]]
+                names = _positional(n, [a.arg for a in cm.args.args[1:]])
         elif isinstance(f, ast.Name) and f.id in BUILDER_FUNCS:
             label = "call:" + f.id
             cf = S.module("ast_transforms").functions.get(f.id)
-            names = [a.arg for a in cf.args.args] if cf is not None else None
+            names = _positional(n, [a.arg for a in cf.args.args]) if cf is not None else None
         elif isinstance(f, ast.Name) and any(d[0] == "call" and d[1] == "_select_struct_union_class" for d in s.env.get(f.id, ())):
             label, names = "Struct|Union", spec.get("Struct", [])
         if label is None:
             continue
         fa = {}
         for s2 in merged[id(n)]:
-            for i, a in enumerate(n._args):
+            for i, a in enumerate(s2.args):
                 k = names[i] if names and i < len(names) else f"arg{i}"
                 fa.setdefault(k, set()).update(a)
-            for k, v in n._kws.items():
-                fa.setdefault(k, set()).update(v)
+            kwmap = getattr(n, "_kwmap", {})
+            for k, v in s2.kws.items():
+                fa.setdefault(kwmap.get(k, k), set()).update(v)
         if label == "call:_add_declaration_specifier":
-            fa.pop("declspec", None)     # the accumulated specifier record itself (threaded through every call)
-        out.append([label, {k: W.simp_set(v) for k, v in sorted(fa.items())}])
+            fa.pop("p0", None)     # the accumulated specifier record itself (threaded through every call)
+        rec = {k: W.simp_set(v) for k, v in sorted(fa.items())}
+        if label.startswith(("call:", "fn:")):
+            # an argument that carries a location (only coordinate values / None) is marked, so that coordinate rules find it without its name
+            for k in list(rec):
+                vals = rec[k]
+                if vals and any(v.startswith("coord(") or v.endswith(".coord") for v in vals) and all(v.startswith("coord(") or v.endswith(".coord") or v in ("None", "global:self.clex.filename") for v in vals):
+                    rec[k + "@coord"] = rec.pop(k)
+        if label.startswith(("call:_parse_", "call:_try_parse_")) and label != "call:_parse_error" and all(_is_const_text(v) for vals in rec.values() for v in vals):
+            continue        # only flags / constants are passed: nothing of the input flows through this call's parameters
+        out.append([label, rec])
     return out
+
+
+def _is_const_text(v):
+    return v in ("True", "False", "None") or (len(v) >= 2 and v[0] == v[-1] and v[0] in "'\"") or v.lstrip("-").isdigit()
+
+
+def _positional(call, pnames):
+    """argument names of a call to a private helper, by position: p0, p1, ... (keyword arguments are mapped through the callee's signature)"""
+    call._kwmap = {kname: f"p{pnames.index(kname)}" for kname in pnames}
+    return [f"p{i}" for i in range(len(pnames))]
 
 
 def _one(w, spec):
@@ -86,8 +104,8 @@ def _one(w, spec):
         sub.is_method = False
         sub.selfname = "self"
         sub.calls, sub.ordinals, sub.sites, sub.returns, sub.appends, sub._count = [], {}, [], [], {}, {}
-        sub._number_calls()
-        env = {a.arg: {("param", a.arg)} for a in lf.args.args}
+        sub._inline_depth = 0
+        env = {a.arg: {("param", f"#{i}")} for i, a in enumerate(lf.args.args)}
         sub.block(lf.body, env, ())
         for lab, fa in _sites_of_interest(sub, spec):
             recs.append([f"{name}>{lab}", fa])
@@ -136,21 +154,37 @@ def _norm_target(w, key, acc_order):
     if root == w.selfname:
         return "self" + rest
     params = {a.arg for a in w.fn.args.args}
-    if root in params and all(d == ("param", root) for d in descs):
-        return "param:" + root + rest
+    if root in params and all(d[0] == "param" for d in descs):
+        return "|".join(W.simp_set(descs)) + rest
     solid = [d for d in descs if d[0] not in ("list", "tuple", "const")]
     if solid:
         return "|".join(W.simp_set(solid)) + rest
     return f"acc#{acc_order.index(root)}" + rest
 
 
-def current():
-    """method -> {'records': [[label, {field: [provenance...]}], ...], 'returns': [...], 'appends': {target: [[prov...], op]...}}"""
+def current(for_reference=False):
+    """method -> {'records': [[label, {field: [provenance...]}], ...], 'returns': [...], 'appends': {target: [[prov...], op]...}}
+
+    Methods that the reviewed reference does not know (helpers extracted after the review) are interpreted in place in their callers,
+    so an extraction leaves the callers' wiring as it was; they get no entry of their own."""
+    if not for_reference and "cur" in _memo:
+        return _memo["cur"]
     W.TOKSITES = e1.token_sites()
+    W.CALL_LA = e1.call_la()
+    px0 = S.module("c_parser")
+    W.METHODS = dict(px0.methods("CParser"))
+    known = None
+    if not for_reference and os.path.exists(REF_PATH):
+        with open(REF_PATH) as f:
+            known = json.load(f).get("$methods")
+    W.INLINE = set() if known is None else {m for m in W.METHODS if m not in known and m.startswith("_") and not m.startswith("__")}
+    W._cache.clear()
     spec = {n: [e for e, _ in ents] + ["coord"] for n, ents, _ in A.parse_cfg()}
     out = {}
     px = S.module("c_parser")
     for m in px.methods("CParser"):
+        if m in W.INLINE:
+            continue
         recs, rets, apps = _one(W.of("c_parser", "CParser", m), spec)
         if recs or rets - {"None"} or apps:
             out[m] = {"records": recs, "returns": sorted(rets), "appends": apps}
@@ -158,14 +192,23 @@ def current():
     for m in tx.functions:
         recs, rets, apps = _one(W.of("ast_transforms", None, m), spec)
         out["ast_transforms." + m] = {"records": recs, "returns": sorted(rets), "appends": apps}
+    if for_reference:
+        out["$methods"] = sorted(W.METHODS)
+    else:
+        _memo["cur"] = out
     return out
+
+
+_memo = {}
 
 
 def load_ref():
     if not os.path.exists(REF_PATH):
         raise AnalysisError("reviewed wiring reference sa/wiring_ref.json is missing")
     with open(REF_PATH) as f:
-        return json.load(f)
+        ref = json.load(f)
+    ref.pop("$methods", None)
+    return ref
 
 
 def _explode(recs):
@@ -196,6 +239,18 @@ def diff_method(ref_m, cur_m, field_filter, want_returns=True, want_appends=True
     cr = [(c, f) for c, f in cr if f]
     ra, ca = _explode(rr), _explode(cr)
     missing, extra = ra - ca, ca - ra
+    if bool(missing) != bool(extra):
+        # one side is a superset of the other: branches with a common tail were merged into one constructor call (the call then sees the
+        # union of what reaches it, so field values combine that never occurred together) or such a call was split.  That is no change of
+        # wiring as long as every field of every class still receives exactly the same set of values.
+        def by_field(recs):
+            d = {}
+            for c, f in recs:
+                for k, v in f:
+                    d.setdefault((c, k), set()).add(v)
+            return d
+        if by_field(ra) == by_field(ca):
+            missing, extra = set(), set()
     # pair leftovers of the same class by greatest agreement for a readable report
     missing_l = sorted(missing)
     for c, f in sorted(extra):
